@@ -11,6 +11,98 @@ from picomon.driver import Driver, new_result, bump, h8
 from picomon.gen import docs as gd, corpus
 
 
+_NUM_ATTRS = ("x", "y", "width", "height", "cx", "cy", "r", "rx", "ry", "x1", "y1", "x2", "y2", "fx", "fy")
+
+
+def _refs(n):
+    out = []
+    for k, v in n.attrs.items():
+        if k in ("clip-path", "fill") and "url(#" in v:
+            out.append(v[v.index("#") + 1:].rstrip(")"))
+        if k in ("xlink:href", "href") and v.startswith("#"):
+            out.append(v[1:])
+    return out
+
+
+def near_variant(root, rng, prefer_indirect=False):
+    """A copy of the document that differs in ONE number inside a referenced element (a clipPath child,
+    a gradient, a use target), everything else byte-identical: whatever is memoised across
+    conversions by the markup of the *referencing* element is hit with the same key and different content.
+    With prefer_indirect the number is taken from an element that is reached through another
+    defs-level element (inner clipPath of a chain, gradient template) which the body really uses."""
+    r = root.copy()
+    byid = {n.attrs["id"]: n for n in r.iter() if n.kind == "el" and "id" in n.attrs}
+    defs_level = {id(m) for n in r.iter() if n.tag in ("defs", "clipPath", "linearGradient", "radialGradient") for m in n.iter()}
+    used = set()  # ids referenced from the body
+    for n in r.iter():
+        if n.kind == "el" and id(n) not in defs_level:
+            used.update(_refs(n))
+    direct = set(used)
+    indirect = set()
+    frontier = list(used)
+    while frontier:
+        i = frontier.pop()
+        tgt = byid.get(i)
+        if tgt is None:
+            continue
+        for m in tgt.iter():
+            for j in _refs(m):
+                if j not in indirect and j not in direct:
+                    indirect.add(j)
+                    frontier.append(j)
+
+    def numbers(ids):
+        out = []
+        for i in sorted(ids):
+            for m in (byid[i].iter() if i in byid else ()):
+                for k in _NUM_ATTRS:
+                    try:
+                        float(m.attrs.get(k, ""))
+                    except ValueError:
+                        continue
+                    out.append((m, k))
+        return out
+
+    cands = numbers(indirect) if prefer_indirect else []
+    if not cands:
+        cands = numbers(indirect) * 3 + numbers(direct)
+    if not cands:
+        return None
+    m, k = rng.choice(cands)
+    m.attrs[k] = gd.fnum(round(float(m.attrs[k]) + rng.choice((3, 7, -2.5)), 3))
+    return gd.to_xml(r)
+
+
+def reference_families(rng, count):
+    """Families of documents that are byte-identical except for the content of an element reached
+    *through* another one: the inner clipPath of a chain, a gradient's href template, a use target
+    inside a clipPath.  Anything memoised across conversions by the markup (or id) of the referencing
+    element meets the same key with different content."""
+    out = []
+    n = lambda a, b: gd.fnum(round(rng.uniform(a, b), 1))
+    for _ in range(count):
+        kind = rng.choice(("clip_chain", "gradient_template", "use_in_clip"))
+        tf = rng.choice(("", ' transform="translate(5 3)"', ' transform="rotate(10)"'))
+        shape = f'<rect x="{n(5, 20)}" y="{n(5, 20)}" width="{n(50, 70)}" height="{n(50, 70)}" fill="{rng.choice(gd.PALETTE)}"'
+        outer = f'<circle cx="{n(35, 55)}" cy="{n(35, 55)}" r="{n(25, 35)}"/>'
+        fam = []
+        for v in range(rng.randint(2, 3)):
+            inner = f'<rect x="{n(10, 40)}" y="{n(10, 40)}" width="{n(20, 40)}" height="{n(20, 40)}"/>'
+            if kind == "clip_chain":
+                defs = f'<clipPath id="in">{inner}</clipPath><clipPath id="out" clip-path="url(#in)">{outer}</clipPath>'
+                body = f'<g{tf}>{shape} clip-path="url(#out)"/></g>'
+            elif kind == "use_in_clip":
+                defs = f'{inner.replace("<rect", "<rect id=\"t\"")}<clipPath id="out"><use xlink:href="#t"/>{outer.replace("r=", "r=\"3\" data-r=")}</clipPath>'
+                body = f'<g{tf}>{shape} clip-path="url(#out)"/></g>'
+            else:
+                stops = f'<stop offset="0" stop-color="{rng.choice(("red", "blue", "#0f0", "#ff0"))}"/><stop offset="1" stop-color="{rng.choice(("black", "white", "navy"))}"/>'
+                defs = f'<linearGradient id="t" x1="{n(0, 0.4)}" x2="{n(0.6, 1)}">{stops}</linearGradient><linearGradient id="g" xlink:href="#t" gradientTransform="rotate(20)"/>'
+                body = f'<g{tf}>{shape.rsplit(" fill=", 1)[0]} fill="url(#g)"/></g>'
+            fam.append(f'<svg xmlns="http://www.w3.org/2000/svg" xmlns:xlink="http://www.w3.org/1999/xlink" viewBox="0 0 100 100"><defs>{defs}</defs>{body}</svg>')
+        out.extend(fam)
+    return out
+
+
 def doc_pool(seed, tier):
     """Deterministic list of (text, ndigits, allow_text, drop_unsupported)."""
     rng = random.Random(f"C16-pool-{seed}")
@@ -19,6 +111,8 @@ def doc_pool(seed, tier):
     rng.shuffle(files)
     for path in files[: (25 if tier == "quick" else 120)]:
         pool.append((open(path).read(), 3, False, False))
+    for text in reference_families(rng, 6 if tier == "quick" else 40):
+        pool.append((text, 3, False, False))
     n = 60 if tier == "quick" else 500
     for i in range(n):
         k = rng.random()
@@ -26,12 +120,28 @@ def doc_pool(seed, tier):
             text, f, root, meta = gd.mixed_doc(rng, unsupported=True, noise=rng.random() < 0.4, text_only_unsupported=True)
             at = True if meta["unsupported"] else rng.random() < 0.3
             pool.append((text, rng.choice((0, 2, 3, 3, 6)), at, rng.random() < 0.3))
-        elif k < 0.7:
+            if rng.random() < 0.35:
+                v = near_variant(root, rng)
+                if v:
+                    pool.append((v,) + pool[-1][1:])
+        elif k < 0.67:
             text, f, root = gd.gradient_doc(rng)
             pool.append((text, 3, False, False))
-        elif k < 0.8:
+            if rng.random() < 0.5:
+                v = near_variant(root, rng)
+                if v:
+                    pool.append((v, 3, False, False))
+        elif k < 0.72:
             text, f, root = gd.stroke_doc(rng)
             pool.append((text, 3, False, False))
+        elif k < 0.82:
+            # clipped documents (clipPath chains) each with one or two near-duplicates
+            text, f, root = gd.clipped(rng, nested_svg=False, max_depth=2)
+            pool.append((text, 3, False, False))
+            for _ in range(rng.randint(1, 2)):
+                v = near_variant(root, rng, prefer_indirect=True)
+                if v:
+                    pool.append((v, 3, False, False))
         elif k < 0.88:
             # text-heavy documents with inherited presentation attributes (allow_text path)
             g = gd.Gen(rng, paint=True, nested_svg=False, unique_fills=False)
